@@ -106,3 +106,35 @@ Theorem C03_warn_repairs_payload_digest :
     m_get field_table uni_lower n_payload_digest hs' = true_digest_text H p.
 Proof. intros. eapply validate_digest_warn_repairs_payload; eassumption. Qed.
 Print Assumptions C03_warn_repairs_payload_digest.
+
+(** "... and a record whose declared values are correct is never reported, in any supported
+    algorithm, in base16/base32/base64 and in either letter case": the text of the true digest of
+    the bytes [x] - hex in lower or upper case, base32 in upper or lower case, base64 - is read by
+    newDigest, for every supported algorithm and whatever default encoding the reader has, as a
+    digest of that algorithm which does not disagree with [x]; with
+    [C03_correct_values_are_never_reported] such a record is never reported.  The hash function
+    is any function returning [alg_size] bytes; the base32 / base64 decoders are oracles assumed
+    to invert the modelled encoders on the hash values that occur. *)
+Require Import Proofs.CodecProofs Proofs.Codec3264Proofs Proofs.DigestCaseProofs.
+Theorem C03_true_digest_is_accepted_in_every_encoding_and_case :
+  forall uni_lower uni_upper H b32 b64 al x e,
+    (forall a y, List.length (H a y) = alg_size a /\ Forall is_byte (H a y)) ->
+    (forall a y, b32 (b32_encode (H a y)) = Some (H a y)) ->
+    (forall a y, b64 (b64_encode (H a y)) = Some (H a y)) ->
+    forall t, In t [hex_encode (H al x); ascii_upper (hex_encode (H al x));
+                    b32_encode (H al x); ascii_lower (b32_encode (H al x)); b64_encode (H al x)] ->
+      exists d, new_digest uni_lower uni_upper (alg_name al ++ [COLON] ++ t)%list e = Some d /\ d_alg d = al /\
+                disagrees H b32 b64 (feed d x) = false.
+Proof.
+  intros ul uu H b32 b64 al x e Hsz H32 H64 t Hin.
+  assert (Hacc : accepted ul uu H b32 b64 al x t e).
+  { cbn [In] in Hin. destruct Hin as [<-|[<-|[<-|[<-|[<-|[]]]]]].
+    - apply lower_hex_accepted; assumption.
+    - apply upper_hex_accepted; assumption.
+    - apply upper_b32_accepted; assumption.
+    - apply lower_b32_accepted; assumption.
+    - apply b64_accepted; assumption. }
+  destruct Hacc as (d & Hn & Ha & _ & Hv). exists d. split; [exact Hn|]. split; [exact Ha|].
+  unfold disagrees. rewrite Hv. apply Bool.andb_false_r.
+Qed.
+Print Assumptions C03_true_digest_is_accepted_in_every_encoding_and_case.
